@@ -32,6 +32,9 @@ type tableLoop struct {
 	body   *ssa.BasicBlock // successor taken while cond holds
 	done   *ssa.BasicBlock
 	blocks map[*ssa.BasicBlock]bool // loop blocks including header
+	// counted `for i := a; i cmp b; i += c` loops: the values idx takes on entry
+	// to iteration 0..n (next is nil for them)
+	idxVals []int64
 	// body values used behind an exit block, which gets a phi for them
 	repairAt map[ssa.Value]*ssa.BasicBlock
 }
@@ -105,6 +108,20 @@ func findTableLoop(fn *ssa.Function) *tableLoop {
 		if n < 1 || n > maxUnroll {
 			continue
 		}
+		tl := &tableLoop{header: h, idx: idx, next: next, cond: cond, n: n}
+		if !tl.finish(fn) {
+			continue
+		}
+		return tl
+	}
+	return findCountedLoop(fn)
+}
+
+// finish computes the natural loop of tl.header and checks that it can be
+// unrolled.
+func (tl *tableLoop) finish(fn *ssa.Function) bool {
+	h := tl.header
+	for once := true; once; once = false {
 		// natural loop
 		blocks := map[*ssa.BasicBlock]bool{h: true}
 		var work []*ssa.BasicBlock
@@ -142,8 +159,129 @@ func findTableLoop(fn *ssa.Function) *tableLoop {
 		if outside != 1 || !blocks[h.Succs[0]] || blocks[h.Succs[1]] {
 			continue
 		}
-		tl := &tableLoop{header: h, idx: idx, next: next, cond: cond, n: n, body: h.Succs[0], done: h.Succs[1], blocks: blocks}
+		tl.body, tl.done, tl.blocks = h.Succs[0], h.Succs[1], blocks
 		if !tl.closed(fn) {
+			continue
+		}
+		return true
+	}
+	return false
+}
+
+// evalInt: the value of an integer expression made of constants, len() of
+// lists of statically known length, and + and - of such.
+func evalInt(v ssa.Value, depth int) (int64, bool) {
+	if depth > 4 {
+		return 0, false
+	}
+	if k, ok := ConstInt(v); ok {
+		return k, true
+	}
+	switch x := v.(type) {
+	case *ssa.Call:
+		if b, isB := x.Call.Value.(*ssa.Builtin); isB && b.Name() == "len" && len(x.Call.Args) == 1 {
+			return staticLen(x.Call.Args[0])
+		}
+	case *ssa.BinOp:
+		a, okA := evalInt(x.X, depth+1)
+		b, okB := evalInt(x.Y, depth+1)
+		if okA && okB {
+			switch x.Op {
+			case token.ADD:
+				return a + b, true
+			case token.SUB:
+				return a - b, true
+			}
+		}
+	case *ssa.Convert:
+		return evalInt(x.X, depth+1)
+	}
+	return 0, false
+}
+
+// findCountedLoop: `for i := a; i cmp b; i += c` with a, b, c statically
+// known (a list walked backwards, or by index) and at most maxUnroll rounds.
+func findCountedLoop(fn *ssa.Function) *tableLoop {
+	for _, h := range fn.Blocks {
+		if len(h.Instrs) < 3 || len(h.Succs) != 2 {
+			continue
+		}
+		ifi, ok := h.Instrs[len(h.Instrs)-1].(*ssa.If)
+		if !ok {
+			continue
+		}
+		cond, ok := ifi.Cond.(*ssa.BinOp)
+		if !ok || cond.Block() != h {
+			continue
+		}
+		idx, ok := cond.X.(*ssa.Phi)
+		if !ok || idx.Block() != h || len(idx.Edges) != 2 {
+			continue
+		}
+		bound, ok := evalInt(cond.Y, 0)
+		if !ok {
+			continue
+		}
+		var init, step int64
+		okInit, okStep := false, false
+		for _, e := range idx.Edges {
+			if b, isB := e.(*ssa.BinOp); isB && b.X == ssa.Value(idx) && (b.Op == token.ADD || b.Op == token.SUB) {
+				if k, isC := ConstInt(b.Y); isC && k != 0 {
+					step, okStep = k, true
+					if b.Op == token.SUB {
+						step = -k
+					}
+					continue
+				}
+			}
+			if k, isK := evalInt(e, 0); isK {
+				init, okInit = k, true
+			}
+		}
+		if !okInit || !okStep {
+			continue
+		}
+		holds := func(i int64) bool {
+			switch cond.Op {
+			case token.LSS:
+				return i < bound
+			case token.LEQ:
+				return i <= bound
+			case token.GTR:
+				return i > bound
+			case token.GEQ:
+				return i >= bound
+			case token.NEQ:
+				return i != bound
+			}
+			return false
+		}
+		switch cond.Op {
+		case token.LSS, token.LEQ, token.GTR, token.GEQ, token.NEQ:
+		default:
+			continue
+		}
+		var vals []int64
+		i := init
+		for len(vals) <= maxUnroll+1 {
+			vals = append(vals, i)
+			if !holds(i) {
+				break
+			}
+			i += step
+		}
+		n := int64(len(vals) - 1)
+		if holds(vals[len(vals)-1]) || n > maxUnroll {
+			continue
+		}
+		if n == 0 {
+			replaceOperands(fn, cond, ssa.NewConst(constant.MakeBool(false), cond.Type()))
+			rebuildReferrers(fn)
+			foldConstBranches(fn)
+			return findTableLoop(fn)
+		}
+		tl := &tableLoop{header: h, idx: idx, cond: cond, n: n, idxVals: vals}
+		if !tl.finish(fn) {
 			continue
 		}
 		return tl
@@ -162,7 +300,7 @@ func (tl *tableLoop) closed(fn *ssa.Function) bool {
 		switch x := in.(type) {
 		case *ssa.Phi, *ssa.If:
 		case *ssa.BinOp:
-			if x != tl.next && x != tl.cond {
+			if (tl.next == nil || x != tl.next) && x != tl.cond {
 				return false
 			}
 		case *ssa.DebugRef:
@@ -344,8 +482,12 @@ func unrollOne(fn *ssa.Function, tl *tableLoop) bool {
 				it.vmap[p] = np
 			}
 		}
-		it.vmap[tl.idx] = intConst(k-1, tl.idx)
-		it.vmap[tl.next] = intConst(k, tl.next)
+		if tl.next != nil {
+			it.vmap[tl.idx] = intConst(k-1, tl.idx)
+			it.vmap[tl.next] = intConst(k, tl.next)
+		} else {
+			it.vmap[tl.idx] = intConst(tl.idxVals[k], tl.idx)
+		}
 		it.vmap[tl.cond] = ssa.NewConst(constant.MakeBool(k < tl.n), tl.cond.Type())
 		iters = append(iters, it)
 		newBlocks = append(newBlocks, hk)
